@@ -317,7 +317,8 @@ def run_property(prop, tier, seed, nproc=None, only=None, verbose=False):
                 prev[0]['obligations'] += len(r['obligations'])          # another chunk of the same function
             else:
                 A['functions'].append({'function': fn, 'file': r.get('file'), 'obligations': len(r['obligations']),
-                                       'dropped': r.get('dropped', []), 'lemmas': r.get('lemmas', 0)})
+                                       'dropped': r.get('dropped', []), 'lemmas': r.get('lemmas', 0),
+                                       'assumed': r.get('assumed', {})})
             for ob in r['obligations']:
                 A['obligations'] += 1
                 A['solver_s'] += ob.get('ms', 0) / 1000.0
